@@ -30,6 +30,7 @@ EVID = os.environ.get("VERIF_EVIDENCE_DIR") or os.path.join(HERE, "evidence")
 REPL = os.environ.get("VERIF_REPLAY_DIR") or os.path.join(HERE, "replays")
 NCPU = int(os.environ.get("VERIF_JOBS", "16"))
 GRACE_AFTER_FAILURE = 45
+REGRESS_TIMEOUT = 600
 WARM_TIMEOUT = int(os.environ.get("VERIF_WARM_TIMEOUT", "600"))
 
 
@@ -276,7 +277,18 @@ def main():
     regress_n = 0
     if reg_files:
         docs = [json.load(open(p)) for p in reg_files]
-        rs = replay_cases(prop, [d["case"] for d in docs], replay_mode, thash, rundir, "regress")
+        rs = replay_cases(prop, [d["case"] for d in docs], replay_mode, thash, rundir, "regress", timeout=REGRESS_TIMEOUT)
+        if rs is None or rs == "crash":
+            # one of them does not come back (or kills the process): find out which, one at a time
+            rs = []
+            for d in docs:
+                r1 = replay_cases(prop, [d["case"]], replay_mode, thash, rundir, "regress1", timeout=REGRESS_TIMEOUT // 2)
+                if r1 is None:
+                    rs.append({"ok": False, "msg": "the replay does not return within %d s (it used to take seconds at most)" % (REGRESS_TIMEOUT // 2)})
+                elif r1 == "crash":
+                    rs.append({"ok": False, "msg": "the replay kills the worker process (signal)"})
+                else:
+                    rs.append(r1[0])
         for p, d, r in zip(reg_files, docs, rs):
             regress_n += 1
             if r["ok"] is None:
